@@ -813,6 +813,15 @@ static ares_status_t process_answer(ares_channel_t      *channel,
     goto cleanup;
   }
 
+  /* The reply must arrive on the connection the query is currently waiting on.
+   * A late reply to an earlier attempt (the query has since been re-sent to
+   * another server, or moved to TCP) showing up on the old connection is
+   * dropped like any other reply we are no longer listening for. */
+  if (query->conn != conn) {
+    status = ARES_SUCCESS;
+    goto cleanup;
+  }
+
   /* Both the query id and the questions must be the same. We will drop any
    * replies that aren't for the same query as this is considered invalid. */
   if (!same_questions(query, rdnsrec)) {
